@@ -1,7 +1,8 @@
 /-
   EG.Lemmas.JoinsJoin — `LineJoin::{start, end, from_points}` commute with translation: corners move
   by `d`, the join kind (miter / bevel / degenerate / colinear) is unchanged.
-  The only guard is `NoSat`: the `i32` casts of the two intersection points do not saturate.
+  The only guard is `EdgesNoSat` / `JoinNoSat`: where a rounded intersection point is used (not
+  discarded by `nearly_colinear_has_error`), its `i32` casts do not saturate.
 -/
 import EG.Lemmas.JoinsExtents
 set_option linter.unusedSimpArgs false
@@ -37,29 +38,76 @@ theorem stop_translate (m e : Pt) (w : Nat) (off : StrokeOffset) (d : Pt) :
 /-- The result of the private `intersections`, moved by `d`. -/
 def shiftInter (r : Pt × LineSide × Pt) (d : Pt) : Pt × LineSide × Pt := (r.1 + d, r.2.1, r.2.2 + d)
 
-/-- "No cast saturates in the two intersections of this join, before or after the move." -/
+/-- "In the two intersections of this join, the rounded point is discarded
+(`nearly_colinear_has_error`) or no cast saturates, before or after the move." -/
 def EdgesNoSat (fl fr sl sr : Line) (d : Pt) : Prop :=
-  (IntersectionParams.fromLines sl fl).NoSat d ∧ (IntersectionParams.fromLines sr fr).NoSat d
+  (IntersectionParams.fromLines sl fl).PointOK d ∧ (IntersectionParams.fromLines sr fr).PointOK d
 
 instance (fl fr sl sr : Line) (d : Pt) : Decidable (EdgesNoSat fl fr sl sr d) := by
   unfold EdgesNoSat; exact inferInstance
 
-theorem intersections_translate (fl fr sl sr : Line) (d : Pt) (h : EdgesNoSat fl fr sl sr d) :
-    intersections (fl.translate d) (fr.translate d) (sl.translate d) (sr.translate d) =
-      (intersections fl fr sl sr).map (shiftInter · d) := by
-  unfold intersections
-  simp only [intersection_translate _ _ _ h.1, intersection_translate _ _ _ h.2,
-    nearlyColinearHasError_translate]
+/-- One intersection of `intersections`, with its fallback: `(point or fallback, outer side)`. -/
+def pickPoint (l1 l2 : Line) (fallback : Pt) : Option (Pt × LineSide) :=
+  match (IntersectionParams.fromLines l1 l2).intersection with
+  | .colinear => none
+  | .point point outerSide =>
+    some (if !(IntersectionParams.fromLines l1 l2).nearlyColinearHasError then point else fallback,
+      outerSide)
+
+theorem pickPoint_translate (l1 l2 : Line) (fallback d : Pt)
+    (h : (IntersectionParams.fromLines l1 l2).PointOK d) :
+    pickPoint (l1.translate d) (l2.translate d) (fallback + d) =
+      (pickPoint l1 l2 fallback).map (fun r => (r.1 + d, r.2)) := by
+  unfold pickPoint
+  rw [nearlyColinearHasError_translate]
+  rcases h with he | hns
+  · have hshape := intersection_translate_shape l1 l2 d
+    cases hi : (IntersectionParams.fromLines l1 l2).intersection with
+    | colinear => rw [hi] at hshape; simp only [] at hshape; rw [hshape]; rfl
+    | point p s =>
+      rw [hi] at hshape
+      simp only [] at hshape
+      obtain ⟨p', hp'⟩ := hshape
+      rw [hp']
+      simp only [he, Bool.not_true, Bool.false_eq_true, ↓reduceIte, Option.map_some]
+  · rw [intersection_translate l1 l2 d hns]
+    cases (IntersectionParams.fromLines l1 l2).intersection with
+    | colinear => rfl
+    | point p s =>
+      simp only [Intersection.translate, Option.map_some]
+      cases (IntersectionParams.fromLines l1 l2).nearlyColinearHasError <;> rfl
+
+theorem intersections_eq (fl fr sl sr : Line) :
+    intersections fl fr sl sr =
+      match pickPoint sl fl fl.stop with
+      | none => none
+      | some (li, side) =>
+        match pickPoint sr fr fr.stop with
+        | none => none
+        | some (ri, _) => some (li, side, ri) := by
+  unfold intersections pickPoint
+  simp only []
   cases (IntersectionParams.fromLines sl fl).intersection with
   | colinear => rfl
   | point p1 s1 =>
-    simp only [Intersection.translate]
+    simp only []
     cases (IntersectionParams.fromLines sr fr).intersection with
     | colinear => rfl
-    | point p2 s2 =>
-      simp only [Intersection.translate, Option.map_some, shiftInter, translate_stop]
-      cases (IntersectionParams.fromLines sl fl).nearlyColinearHasError <;>
-        cases (IntersectionParams.fromLines sr fr).nearlyColinearHasError <;> rfl
+    | point p2 s2 => rfl
+
+theorem intersections_translate (fl fr sl sr : Line) (d : Pt) (h : EdgesNoSat fl fr sl sr d) :
+    intersections (fl.translate d) (fr.translate d) (sl.translate d) (sr.translate d) =
+      (intersections fl fr sl sr).map (shiftInter · d) := by
+  rw [intersections_eq, intersections_eq, translate_stop, translate_stop,
+    pickPoint_translate sl fl fl.stop d h.1, pickPoint_translate sr fr fr.stop d h.2]
+  cases pickPoint sl fl fl.stop with
+  | none => rfl
+  | some r1 =>
+    obtain ⟨li, side⟩ := r1
+    simp only [Option.map_some]
+    cases pickPoint sr fr fr.stop with
+    | none => rfl
+    | some r2 => rfl
 
 theorem delta_mk_translate (a b d : Pt) : Line.delta ⟨a + d, b + d⟩ = Line.delta ⟨a, b⟩ :=
   delta_translate ⟨a, b⟩ d
